@@ -1,5 +1,6 @@
 import Lean.Data.Json
 import NGF.Model.C02Judge
+import NGF.Model.PipelineTie
 import NGF.Model.Hostname
 import NGF.Model.Precedence
 import NGF.Model.Proto
@@ -226,13 +227,26 @@ def modelN (j : Json) : Except String Json := do
     | .notFound => Json.str "404"
     | .error => Json.str "500")])
 
+/-- `pipeline` mode (k=J): translation validation of Model/Pipeline.gen against the real http.conf, and the fragment
+theorem / restated specification executed on the probes -/
+def pipelineJ (j : Json) : Except String Json := do
+  let s ← dScenario (← j.getObjVal? "flat")
+  match dConfig (← j.getObjVal? "files") with
+  | .error e => pure (Json.mkObj [("inFragment", false), ("why", "unparsable: " ++ e)])
+  | .ok cfg =>
+    let t := NGF.PipelineTie.tie cfg s 600
+    pure (Json.mkObj [("inFragment", t.inFragment), ("why", t.why), ("noShadow", t.noShadow), ("confEqual", t.confEqual),
+      ("confDiff", t.confDiff), ("probes", t.probes), ("thmFail", t.thmFail.getD ""), ("specFail", t.specFail.getD "")])
+
 def answer (mode : String) (line : String) : String :=
   match Json.parse line with
   | .error _ => "{\"error\":\"bad-op\"}"
   | .ok j =>
     let k := optStr j "k"
     let r : Except String Json :=
-      if mode == "judge" then
+      if mode == "pipeline" then
+        if k == "J" then pipelineJ j else pure (Json.mkObj [("skip", true)])
+      else if mode == "judge" then
         if k == "J" then judgeJ j else if k == "M" then judgeM j else if k == "G" then judgeG j
         else pure (Json.mkObj [("skip", true)])
       else
@@ -248,7 +262,7 @@ def driver (args : List String) : IO UInt32 := do
   let stdout ← IO.getStdout
   match args with
   | [m] =>
-    if m == "judge" || m == "model" then
+    if m == "judge" || m == "model" || m == "pipeline" then
       NGF.Proto.forEachLine stdin fun l => do stdout.putStrLn (answer m l); stdout.flush
       return 0
     else IO.eprintln "usage: C02 model|judge"; return 2
